@@ -46,6 +46,8 @@ pub struct Ctx {
     /// implementation-level injectivity: structure bytes -> the (context, slots, aad, payload) key that produced them
     pub inj: std::collections::HashMap<Vec<u8>, String>,
     pub inj_checked: u64,
+    /// `--derive`: decode vectors are turned into fixed-point (C07) / one-item (C13) cases
+    pub derive: bool,
 }
 
 pub fn hash_pub(j: &J) -> u64 {
@@ -87,6 +89,7 @@ impl Ctx {
             rejected: 0,
             inj: Default::default(),
             inj_checked: 0,
+            derive: false,
         }
     }
 
@@ -742,6 +745,8 @@ pub fn run_vector(ctx: &mut Ctx, v: &J) {
         ctx.samples.push(v.clone());
     }
     match kind.as_str() {
+        "decode" if ctx.derive => crate::runner5::derive_from_decode(ctx, v),
+        "encode" | "session" if ctx.derive => {}
         "decode" => run_decode(ctx, v),
         "encode" => run_encode(ctx, v),
         "session" => run_session(ctx, v),
